@@ -226,31 +226,35 @@ Fixpoint trace (c : cfg) (s : st) (evs : list ev) : list obs :=
   end.
 
 (* ---- script interface ----
-   Time unit of the script interface: MICROSECONDS (the event `Advance d` and `ttl` are unit-free).
+   The step function is unit-free in time; a script counts MICROSECONDS, or NANOSECONDS when (sh / 8) is odd
+   ("fine unit" below; U = fine units per millisecond = 1000 or 1000000).
    script = [policy (0 LRU, 1 LFU, 2 FIFO); max_size; ttl (-1 none); sh; n callers; m events; (op a b)*m; oracle*m]
      sh mod 4: 0 private (CacheLayer, one store per layer() call), 1 SharedCacheLayer::builder,
                2 and 3 CacheLayer::shared();
-     sh / 4 odd: the ttl field is in microseconds, otherwise in milliseconds
+     (sh / 4) odd: the ttl field is in fine units, otherwise in milliseconds;
+     (sh / 8) odd: the fine unit is the nanosecond, otherwise the microsecond
      op 0 = Call a on service b/8 with key b mod 8 (0 <= b < 16), through a fresh clone of the service
         5 = Call a with key b mod 128 (< 120) on service (b/128) mod 2, 0 <= b < 512; b/256 = 1: through the
             long-lived service value itself instead of a fresh clone (no difference in the model:
             Cache::clone shares the store and a Cache value has no other state)
+        7 = Call a with key b mod 256 (< 240) on service (b/256) mod 2, 0 <= b < 1024; b/512 = 1: long-lived value
         1 = Poll a   2 = Drop a
-        3 = Advance a ms (0..100000)      6 = Advance a microseconds (0..10^12)
+        3 = Advance a ms (0..100000)      6 = Advance a fine units (0..10^12)
         4 = Complete a b (b > 0: Ok b, b = 0: Err, b < 0: panic)
      anything else / caller id out of range = Nop (still one trace record)
      oracle j: key that left the store during event j of the implementation run (-1 none);
                read only when an LFU insert has to evict
    trace = per event [r; value; inner calls started; inner calls in flight;
                       listener events (+64: bad oracle);
-                      keys present in store 0; in store 1      (bit k = key k; harness: live key instances)
-                      values present in store 0; in store 1    (bit k = a response stored under key k;
-                                                                harness: live response instances)] *)
+                      keys present in store 0 (two words: bit k of the first = key k < 120, bit k of the
+                      second = key 120 + k); in store 1 (two words)     (harness: live key instances)
+                      values present in store 0 (two words); in store 1 (two words)
+                                  (a response stored under key k; harness: live response instances)] *)
 Definition clampz (lo hi x : Z) : Z := Z.max lo (Z.min hi x).
 
-Definition ev_of (n : nat) (t : Z * Z * Z) (orc : Z) : ev :=
+Definition ev_of (u : Z) (n : nat) (t : Z * Z * Z) (orc : Z) : ev :=
   let '(op, a, b) := t in
-  if op =? 3 then Advance (1000 * clampz 0 100000 a) else
+  if op =? 3 then Advance (u * clampz 0 100000 a) else
   if op =? 6 then Advance (clampz 0 1000000000000 a) else
   if (a <? 0) || (Z.of_nat n <=? a) then Nop else
   let i := Z.to_nat a in     (* a < n: small (and never computed for the arguments of an Advance) *)
@@ -260,14 +264,17 @@ Definition ev_of (n : nat) (t : Z * Z * Z) (orc : Z) : ev :=
   if op =? 5 then
     (if (b <? 0) || (512 <=? b) || (120 <=? b mod 128) then Nop
      else Call i (Z.to_nat ((b / 128) mod 2)) (b mod 128)) else
+  if op =? 7 then
+    (if (b <? 0) || (1024 <=? b) || (240 <=? b mod 256) then Nop
+     else Call i (Z.to_nat ((b / 256) mod 2)) (b mod 256)) else
   if op =? 1 then Poll i orc else
   if op =? 2 then Drop i else
   if op =? 4 then Complete i (if 0 <? b then OOk b else if b =? 0 then OErr else OPanic) else Nop.
 
-Fixpoint evs_of (n : nat) (l : list (Z * Z * Z)) (orcs : list Z) : list ev :=
+Fixpoint evs_of (u : Z) (n : nat) (l : list (Z * Z * Z)) (orcs : list Z) : list ev :=
   match l with
   | [] => []
-  | t :: rest => ev_of n t (hd 0 orcs) :: evs_of n rest (tl orcs)
+  | t :: rest => ev_of u n t (hd 0 orcs) :: evs_of u n rest (tl orcs)
   end.
 
 Definition is_running (x : cst) : bool := match x with Running _ _ => true | _ => false end.
@@ -275,9 +282,16 @@ Definition is_running (x : cst) : bool := match x with Running _ _ => true | _ =
 Definition inflight (s : st) (n : nat) : Z :=
   Z.of_nat (length (filter (fun i => is_running (cs s i)) (seq 0 n))).
 
-(* one bit per entry (keys are unique in a store: Proof/Cache.v keys_nodup) *)
-Definition pres_mask (s : store) : Z :=
-  fold_left (fun acc e => acc + 2 ^ e_key e) s 0.
+(* one bit per entry (keys are unique in a store: Proof/Cache.v keys_nodup), in two words *)
+Definition pow2_tab : list Z := map (fun k => 2 ^ Z.of_nat k) (seq 0 120).
+(* 2 ^ k, read from the table for 0 <= k < 120 *)
+Definition pow2 (k : Z) : Z :=
+  if (0 <=? k) && (k <? 120) then nth (Z.to_nat k) pow2_tab 0 else 2 ^ k.
+
+Definition pres_mask (s : store) : Z * Z :=
+  fold_left (fun acc e =>
+               if e_key e <? 120 then (fst acc + pow2 (e_key e), snd acc)
+               else (fst acc, snd acc + pow2 (e_key e - 120))) s (0, 0).
 
 (* what one trace record shows of an observation and the state after it; `infl` = number of
    callers 0..n-1 whose inner call is in flight after the event *)
@@ -285,7 +299,8 @@ Definition render (infl : Z) (o : obs) (s' : st) : list Z :=
   let m0 := pres_mask (stores s' 0%nat) in
   let m1 := pres_mask (stores s' 1%nat) in
   [o_r o; o_val o; match o_started o with Some _ => 1 | None => 0 end; infl;
-   o_evt o + (if o_bad o then 64 else 0); m0; m1; m0; m1].
+   o_evt o + (if o_bad o then 64 else 0);
+   fst m0; snd m0; fst m1; snd m1; fst m0; snd m0; fst m1; snd m1].
 
 (* an event changes the state of at most one caller, so the in-flight count is maintained
    incrementally (Proof/Cache.v inflight_step: it is `inflight` of the state after the event) *)
@@ -312,11 +327,14 @@ Fixpoint run_evs (c : cfg) (n : nat) (s : st) (infl : Z) (evs : list ev) : list 
     render infl' o s' ++ run_evs c n s' infl' rest
   end.
 
+(* fine units per millisecond *)
+Definition unit_of (sc : list Z) : Z := if Z.odd (zn sc 3 / 8) then 1000000 else 1000.
+
 Definition cfg_of (sc : list Z) : cfg :=
   {| pol := if zn sc 0 =? 1 then Lfu else if zn sc 0 =? 2 then Fifo else Lru;
      max_size := Z.to_nat (zn sc 1);
      ttl := if zn sc 2 <? 0 then None
-            else Some (if Z.odd (zn sc 3 / 4) then zn sc 2 else 1000 * zn sc 2);
+            else Some (if Z.odd (zn sc 3 / 4) then zn sc 2 else unit_of sc * zn sc 2);
      shared := negb (zn sc 3 mod 4 =? 0) |}.
 
 Definition run_script (sc : list Z) : list Z :=
@@ -324,5 +342,5 @@ Definition run_script (sc : list Z) : list Z :=
   let n := Z.to_nat (zn sc 4) in
   let m := Z.to_nat (zn sc 5) in
   let body := skipn 6 sc in
-  let evs := evs_of n (chunk3 (firstn (3 * m)%nat body)) (skipn (3 * m)%nat body) in
+  let evs := evs_of (unit_of sc) n (chunk3 (firstn (3 * m)%nat body)) (skipn (3 * m)%nat body) in
   run_evs c n (init c) 0 evs.
